@@ -8,11 +8,11 @@ from hypothesis import strategies as st
 from . import gen_cmake as G
 
 CMAKE_NAMES = ["a.cmake", "b.cmake", "zeta.cmake", "d.e.cmake", "x-y.cmake", "Mod_1.cmake", "pre_one.cmake", "pre_two.cmake",
-               "ax.cmake", "bx.cmake"]
+               "ax.cmake", "bx.cmake", "Zeta.cmake", "w.cmake.cmake", "c.cmake-3.cmake", "in.util.cmake", "pfx.core.cmake"]
 MIXED_NAMES = ["up.CMAKE", "Mix.CMake", "w.Cmake"]
 OTHER_NAMES = ["README", "x.txt", "CMakeLists.txt", "x.cmake.in", "cmake", "notcmake", "z.cmake.bak", "acmake", "data.json",
                "cmake.txt"]
-DIR_NAMES = ["sub", "a.b", "x-y", "cmake", "Dir2", "docs", "pre_dir", "ax", "deep", "d1", "d2"]
+DIR_NAMES = ["sub", "a.b", "x-y", "cmake", "Dir2", "docs", "pre_dir", "ax", "deep", "d1", "d2", "tool.cmake", "pfx", "Sub"]
 
 CONTENTS = [
     "#[[[\n# Function doc @.\n#]]\nfunction(fn_@ arg)\nendfunction()\n",
@@ -23,6 +23,7 @@ CONTENTS = [
     "",
     "#[[[\n# Class @.\n#]]\ncpp_class(Cls_@)\n  cpp_attr(Cls_@ attr_@ 1)\ncpp_end_class()\n",
     "#[[[\n# Test @.\n#]]\nct_add_test(NAME t_@)\nfunction(${t_@})\nendfunction()\n",
+    "#[[[\n# Derived @.\n#]]\ncpp_class(Der_@ BaseA_@ BaseB_@ BaseC_@ BaseD_@)\n  cpp_member(m_@ Der_@ int str)\n  function(${m_@} self a b)\n  endfunction()\ncpp_end_class()\n",
 ]
 
 
